@@ -9,6 +9,11 @@
 (*   idle   no delivery at all              pre   called, not yet met      *)
 (*   cb     inside the receiver's callback  post  delivery completed       *)
 (*   cancel the parked receivers are cancelled first, Close comes last     *)
+(*   backlog   k in {W, 2W} deliveries are in flight (called, not met; with  *)
+(*             no receiver they are parked) - W stands for the number of     *)
+(*             worker goroutines a stack uses to deliver into its hub        *)
+(*   cbbacklog one delivery is inside the callback, k in {1, W, 2W} more are *)
+(*             in flight                                                     *)
 (* and after Close returned a late receive, a late delivery and a second   *)
 (* Close follow.  TLC runs it in simulation mode; Finish prints the whole  *)
 (* action sequence (history variable) as JSON.  harness/cmd/hubsrec turns  *)
@@ -20,6 +25,7 @@
 EXTENDS Hubs, Json
 
 CONSTANTS Bs, Phases,      \* e.g. {0, 1, 4}, {"idle", "pre", "cb", "post", "cancel"}
+          W,               \* model value of the stack's worker count (the harness substitutes runtime.GOMAXPROCS(0))
           CFirst, CSecond, \* the two close ops
           RLate, DLate     \* the receive / deliver op called after Close returned
 
@@ -30,18 +36,34 @@ PreR == R \ {RLate}
 PreD == D \ {DLate}
 StartedR == {r \in PreR : rpc[r] # "idle"}
 NParked == Cardinality(ParkedR)
-Extra == IF goal.ph \in {"cb", "post"} THEN 1 ELSE 0    \* the receiver that takes the delivery
+Extra == IF goal.ph \in {"cb", "post", "cbbacklog"} THEN 1 ELSE 0    \* the receiver that takes the delivery
+\* deliveries called before Close: the one that is met (cb, post, cbbacklog) plus the k that stay in flight
+NeedD == CASE goal.ph \in {"pre", "backlog"} -> goal.k
+           [] goal.ph \in {"cb", "post"} -> 1
+           [] goal.ph = "cbbacklog" -> 1 + goal.k
+           [] OTHER -> 0
+InFlight == {d \in PreD : dpc[d] \in {"sel", "park"}}     \* called, not met: Hubs!ParkedD once they have parked
+InCb == \E r \in PreR : rpc[r] = "incb"
+\* goals: every base phase with k = 0 (pre: k = 1), and the backlog phases
+Goals == {[b |-> b, ph |-> ph, k |-> IF ph = "pre" THEN 1 ELSE 0] : b \in Bs, ph \in Phases}
+         \cup {[b |-> b, ph |-> "backlog", k |-> k] : b \in Bs, k \in {W, 2 * W}}
+         \cup {[b |-> 0, ph |-> "cbbacklog", k |-> k] : k \in {1, W, 2 * W}}
 CloseCalled == cpc[CFirst] # "idle"
 CloseReturned == cpc[CFirst] = "ret"
 
 GenInit == /\ Init
            /\ hist = <<>>
            /\ done = FALSE
-           /\ goal \in [b : Bs, ph : Phases]
+           /\ goal \in Goals
 
 GoalReached ==
   CASE goal.ph = "idle" -> Cardinality(StartedR) = goal.b /\ NParked = goal.b
-    [] goal.ph = "pre" -> NParked = goal.b /\ \E d \in PreD : dpc[d] \in {"sel", "park"}
+    [] goal.ph \in {"pre", "backlog"} ->
+           /\ NParked = goal.b /\ Cardinality(InFlight) = goal.k
+           /\ (ParkedR = {} => \A d \in InFlight : dpc[d] = "park")
+    [] goal.ph = "cbbacklog" ->
+           /\ NParked = goal.b /\ InCb /\ Cardinality(InFlight) = goal.k
+           /\ (ParkedR = {} => \A d \in InFlight : dpc[d] = "park")
     [] goal.ph = "cb" -> NParked = goal.b /\ \E r \in PreR : rpc[r] = "incb"
     [] goal.ph = "post" -> /\ NParked = goal.b
                            /\ \E d \in PreD : dpc[d] = "ret" /\ dres[d] = "ok"
@@ -59,10 +81,13 @@ Tag(a, op, pc) == hist' = Append(hist, [a |-> a, op |-> op, pc |-> pc,
 EnvStep ==
   \/ \E r \in PreR : /\ ~CloseCalled /\ Cardinality(StartedR) < goal.b + Extra
                      /\ RCall(r) /\ Tag("RCall", r, "")
-  \/ \E d \in PreD : /\ ~CloseCalled /\ goal.ph \in {"pre", "cb", "post"}
-                     /\ \A x \in PreD : dpc[x] = "idle"
-                     /\ NParked = goal.b + Extra
-                     /\ DCall(d) /\ Tag("DCall", d, "")
+  \/ \E d \in PreD : /\ ~CloseCalled
+                     /\ Cardinality({x \in PreD : dpc[x] # "idle"}) < NeedD
+                     /\ IF \A x \in PreD : dpc[x] = "idle"
+                        THEN NParked = goal.b + Extra                \* the first one: the receivers are parked
+                        ELSE goal.ph = "cbbacklog" => InCb           \* the backlog behind a running callback
+                     /\ DCall(d)
+                     /\ Tag("DCall", d, IF goal.ph = "backlog" \/ (goal.ph = "cbbacklog" /\ InCb) THEN "backlog" ELSE "")
   \/ \E r \in PreR : /\ goal.ph = "cancel" /\ ~CloseCalled /\ NParked + Cardinality({x \in StartedR : rpc[x] = "ret"}) = goal.b
                      /\ rpc[r] = "park"
                      /\ CancelR(r) /\ Tag("Cancel", r, "")
@@ -73,8 +98,8 @@ EnvStep ==
 
 \* Scheduling choices that keep the goal reachable (a scheduler may delay any op): in phase "pre" the
 \* deliverer's select waits until Close has been called, in phase "cb" the callback does not return before.
-HoldSel == goal.ph = "pre" /\ ~CloseCalled
-HoldCb == goal.ph = "cb" /\ ~CloseCalled
+HoldSel == goal.ph \in {"pre", "backlog"} /\ ~CloseCalled /\ ParkedR # {}
+HoldCb == goal.ph \in {"cb", "cbbacklog"} /\ ~CloseCalled
 IntStep ==
   \/ \E r \in R : \/ RChk(r) /\ Tag("RChk", r, rpc'[r])
                   \/ RSel1(r) /\ Tag("RSel1", r, rpc'[r])
